@@ -298,6 +298,51 @@ def parse_contract(kind):
         note=f'variant: value is a {kind}')
 
 
+# ------------------------------------------------------------------ v20 _should_set_millisecond (precision of a 2.0 marking-definition's `created` decided from the value)
+def should_set_millisecond_contract(kind):
+    """kind: 'str' | 'datetime' | 'stixdatetime'.  The post-condition is the fixed-point condition of C01/C15: a value written under the
+    any-precision property (answer False) is re-read as text; text with a '.' answers True and is then cut to three digits.  So False is only
+    allowed when the written text has no fraction, i.e. the value has no sub-second part; and a text keeps the form it was given in."""
+    E.declare_enum('MarkingType', ['TLP', 'STATEMENT', 'OTHER'])
+    if kind == 'str': cr = 'str'
+    else: cr = T.mk_datetime('cr', kind='datetime', with_precision=(kind == 'stixdatetime'))
+    tlp = lambda a: a['marking_type'].t == E.ENUMS['MarkingType'][1]['TLP']
+
+    def exact(a, r):
+        if r.sort != 'bool': raise SortMismatch('result is not a bool')
+        if kind == 'str': body = z3.Contains(a['cr'].t, z3.StringVal('.'))
+        else:
+            body = a['cr'].x['microsecond'].t != 0
+            if kind == 'stixdatetime': body = z3.Or(a['cr'].x['precision'].t == PREC['MILLISECOND'], body)
+        return r.t == z3.Or(tlp(a), body)
+
+    def fixed_point(a, r):
+        if r.sort != 'bool': raise SortMismatch('result is not a bool')
+        if kind == 'str': return z3.Implies(z3.Contains(a['cr'].t, z3.StringVal('.')), r.t)
+        return z3.Implies(a['cr'].x['microsecond'].t != 0, r.t)
+
+    def call(py):
+        import stix2.v20.common as C
+        mt = {'TLP': C.TLPMarking, 'STATEMENT': C.StatementMarking, 'OTHER': dict}[py['marking_type']]
+        return C._should_set_millisecond(py['cr'], mt)
+
+    def lower(model):
+        mt = str(model['marking_type'])
+        if kind == 'str': return {'cr': model['cr'], 'marking_type': mt}
+        d = _lower_dttm(model, 'cr')['cr']
+        return {'cr': d, 'marking_type': mt}
+
+    def lift_params(py):
+        return {'cr': Str(py['cr']) if kind == 'str' else _lift_dttm(py['cr'], kind == 'stixdatetime'), 'marking_type': E.enum_val('MarkingType', py['marking_type'])}
+    req = [] if kind == 'str' else [('well-formed datetime', lambda a: T.well_formed_dt(a['cr']))]
+    return Contract('stix2/v20/common.py::_should_set_millisecond', props=['C15', 'C01'],
+                    params={'cr': cr, 'marking_type': 'enum:MarkingType'}, requires=req,
+                    ensures=[('a value with a sub-second part (a text with a fraction) is never left to the any-precision property', fixed_point),
+                             ('answer == TLP or given with a fraction / millisecond precision / a non-zero microsecond', exact)],
+                    raises={}, globals=dict(ENUM_GLOBALS, TLPMarking=E.enum_val('MarkingType', 'TLP')),
+                    replay=Replay(call=call, lower=lower, lift_params=lift_params, facts=lambda py: () if kind == 'str' else civil_facts_for([_us_of_py(py['cr'])])), note=f'variant: created is a {kind}')
+
+
 # ------------------------------------------------------------------ to_enum
 def to_enum_contract(kind):
     """kind: 'member' | 'none' | 'str' | 'other' for the sort of `value`"""
